@@ -219,22 +219,39 @@ def run(ctx):
         raise tlc.TlcError('exact mirror disagrees with TLC on %d profiles' % mirror_bad)
     check_long_generic(ctx, np.random.default_rng(ctx.seed + 99), quick)
     # ---- rank >= 2 (mirror): sums of two chains, moderate d, huge per-core shifts; stabilised rounding
-    for t in range(12 if quick else 120):
+    # chains of thousands of modes with small per-core scales: the total exponent takes every residue modulo d over the
+    # instances (some cores doubled), so a routine that hands the exponent back to the cores meets remainders above 1023
+    long_cfgs = []
+    for d_ in ((1100, 3000) if quick else (1100, 1500, 2100, 3000, 4000)):
+        for j_ in range(4):
+            sg = 1 if (j_ + d_ // 100) % 2 else -1
+            shl = [6 * sg] * d_
+            for k_ in range((j_ * d_) // 3 if j_ < 3 else d_ - 1):
+                shl[d_ - 1 - k_] += 1
+            long_cfgs.append((d_, shl))
+    nshort = 12 if quick else 120
+    for t in range(nshort + len(long_cfgs)):
         d = int(rng.integers(30, 61))
+        sh = [int(x) for x in rng.choice([40, 45, 38], size=d)] if t % 2 else [int(x) for x in rng.choice([-40, -45, -38], size=d)]
+        if t >= nshort:
+            d, sh = long_cfgs[t - nshort]
         n = [2] * d
         base = teneva.rand_stab(n, int(rng.integers(2, 4)), noise=0.3, seed=int(rng.integers(1 << 30)))
         # per-core scales stay moderate (their squares are far above core_stab's threshold); the total is far outside the double range
-        sh = [int(x) for x in rng.choice([40, 45, 38], size=d)] if t % 2 else [int(x) for x in rng.choice([-40, -45, -38], size=d)]
         S = sum(sh)
         Y = [G * 2.0 ** s_ for G, s_ in zip(base, sh)]
         # exact squared norm of the base tensor through the Gram chain (floats, representable)
         v_ = np.ones((1, 1))
+        nb2e = 0                 # exponent split off while walking (thousands of modes leave the double range)
         for G in base:
             v_ = np.einsum('ab,aic,bid->cd', v_, G, G)
+            e2_ = int(np.floor(np.log2(np.abs(v_).max())))
+            v_ = v_ / 2.0 ** e2_
+            nb2e += e2_
         nb2 = Fraction(float(v_[0, 0]))
         ctx.case(key=('rank', t, ctx.seed), nontrivial=True)
         vn, pn = teneva.norm(Y, use_stab=True)
-        okn = np.isfinite(vn) and float(2 * pn).is_integer() and frac_equal(vn * vn, int(round(2 * pn)) - 2 * S, nb2, 0, Fraction(1, 10**9))
+        okn = np.isfinite(vn) and float(2 * pn).is_integer() and frac_equal(vn * vn, int(round(2 * pn)) - 2 * S, nb2, nb2e, Fraction(1, 10**9))
         ctx.check(okn, 'norm:stab-rank', 'stabilised norm of a rank-%d tensor with total exponent %d is wrong: (%r, %r)' % (base[1].shape[0], S, vn, pn))
         for eig in (True, False):
             try:
@@ -243,6 +260,7 @@ def run(ctx):
                 ctx.violation('truncate:stab-raises', 'truncate(use_stab=True) raised %s: %s' % (type(ex).__name__, ex))
                 continue
             okt = F.is_wellformed(Z, n)
+            diag_ = 'malformed / not finite'
             if okt:
                 Zb, SZ = [], 0
                 for G in Z:
@@ -252,18 +270,34 @@ def run(ctx):
                     SZ += e_
                 dd = SZ - S
                 # relative distance through Gram chains of the (moderate) base tensors
-                def gram(A, B):
-                    w = np.ones((1, 1))
+                def gram3(A, B):
+                    # <A,A>, <A,B>, <B,B>, each as (mantissa, exponent): a power of two is split off at every mode
+                    w = [np.ones((1, 1)), np.ones((1, 1)), np.ones((1, 1))]
+                    ex = [0, 0, 0]
                     for Ga, Gb in zip(A, B):
-                        w = np.einsum('ab,aic,bid->cd', w, Ga, Gb)
-                    return float(w[0, 0])
-                if abs(dd) < 900:
-                    f = 2.0 ** dd
-                    dist2 = f * f * gram(Zb, Zb) - 2 * f * gram(Zb, base) + gram(base, base)
-                    okt = dist2 <= 1e-10 * gram(base, base)
+                        w = [np.einsum('ab,aic,bid->cd', w[0], Ga, Ga), np.einsum('ab,aic,bid->cd', w[1], Ga, Gb), np.einsum('ab,aic,bid->cd', w[2], Gb, Gb)]
+                        for q_ in range(3):
+                            mx_ = float(np.abs(w[q_]).max())
+                            if not np.isfinite(mx_) or mx_ == 0.:
+                                return None
+                            e2_ = int(np.floor(np.log2(mx_)))
+                            w[q_] = w[q_] / 2.0 ** e2_
+                            ex[q_] += e2_
+                    return [(float(w[q_][0, 0]), ex[q_]) for q_ in range(3)]
+                g3 = gram3(Zb, base)
+                if g3 is not None and g3[2][0] > 0 and abs(g3[0][1] - g3[2][1] + 2 * dd) < 900 and abs(g3[1][1] - g3[2][1] + dd) < 900:
+                    (mzz, ezz), (mzb, ezb), (mbb, ebb) = g3
+                    rzz = mzz / mbb * 2.0 ** (ezz - ebb + 2 * dd)
+                    rzb = mzb / mbb * 2.0 ** (ezb - ebb + dd)
+                    dist2 = rzz - 2 * rzb + 1.
+                    okt = dist2 <= 1e-10
+                    diag_ = 'exponent difference %d, squared relative distance %.3g' % (dd, dist2)
                 else:
                     okt = False
-            ctx.check(bool(okt), 'truncate:stab', 'stabilised rounding (is_eigh=%s) of a tensor with total exponent %d: cores not finite or tensor changed' % (eig, S))
+                    diag_ = 'exponent difference %d' % dd
+            ctx.check(bool(okt), 'truncate:stab', 'stabilised rounding (is_eigh=%s) of a tensor with d=%d and total exponent %d: cores not finite or tensor changed (%s)' % (eig, d, S, diag_))
+        if t >= nshort:
+            continue             # thousands of modes: not representable without stabilisation, nothing to compare with
         # representable case: plain and stabilised coincide
         Ym = [G * 2.0 ** int(rng.integers(-3, 4)) for G in base]
         a, b = teneva.norm(Ym), teneva.norm(Ym, use_stab=True)
